@@ -6,7 +6,7 @@ from engine.index import norm, walk_own
 from engine.cfg import cfg_of
 from engine.cond import CondCtx, satisfiable
 from engine.defuse import defuse_of, attr_accesses
-from .common import calls_named, package_calls, node_lits, enclosing_trys, handler_catches, contained, resolve_arg
+from .common import calls_named, package_calls, node_lits, enclosing_trys, handler_catches, contained, resolve_arg, before
 from . import c01
 from .c02 import _Sub
 
@@ -275,6 +275,14 @@ def r4(ctx):
         conds = [(norm(t), p) for (t, p) in cfg.conditions_of(U.id)]
         idx = fs.params[1]
         allres = [t for (t, p) in conds if p and t.startswith("all(") and "is not None" in t and "self.acks" in t]
+        allres += [t for (t, p) in conds if not p and t.startswith("any(") and "is None" in t and "self.acks" in t]
+        # ... or a search loop that leaves the function at the first unresolved slot and dominates the call
+        for L in walk_own(fs.node):
+            if isinstance(L, ast.For) and not L.orelse and norm(L.iter) == "self.acks" and isinstance(L.target, ast.Name) and len(L.body) == 1 \
+                    and isinstance(L.body[0], ast.If) and not L.body[0].orelse and norm(L.body[0].test) == "%s is None" % L.target.id \
+                    and len(L.body[0].body) == 1 and isinstance(L.body[0].body[0], ast.Return) \
+                    and not any(p is L for p in _parents(uc[0], fs.node)) and before(fs, L, uc[0]):
+                allres.append("for %s in self.acks: if %s is None: return" % (L.target.id, L.target.id))
         ctx.check(bool(allres), "C07.R4", fs, "user callback waits for every fragment to be resolved", witness=conds, line=uc[0].lineno)
         once = ("self.acks[%s] is not None" % idx, False) in conds or ("self.acks[%s] is None" % idx, True) in conds
         ctx.check(once, "C07.R4", fs, "a fragment is resolved at most once (first result wins)", "otherwise the 'all resolved' branch - and the user callback - can run again", witness=conds, line=uc[0].lineno)
